@@ -68,3 +68,8 @@ func VerifUPCEANDecodeDigit(row *gozxing.BitArray, counters []int, rowOffset int
 func VerifCode128FindStartPattern(row *gozxing.BitArray) ([]int, error) {
 	return code128FindStartPattern(row)
 }
+
+// VerifITFFindGuardPattern exposes the ITF guard-pattern search (returns {start, end}).
+func VerifITFFindGuardPattern(row *gozxing.BitArray, rowOffset int, pattern []int) ([]int, error) {
+	return itfReader_findGuardPattern(row, rowOffset, pattern)
+}
